@@ -117,6 +117,28 @@ fn observe(a: &Arr2D<i64>) -> String {
     s
 }
 
+// From<&[[T; N]; M]> needs the shape at compile time: shapes 0..4 x 0..4
+fn from_arr<const M: usize, const N: usize>(v: &[i64]) -> Arr2D<i64> {
+    let mut x = [[0i64; N]; M];
+    for r in 0..M {
+        for c in 0..N {
+            x[r][c] = v[r * N + c];
+        }
+    }
+    Arr2D::from(&x)
+}
+macro_rules! arr_dispatch {
+    ($h:expr, $w:expr, $v:expr, $( ($m:literal, $n:literal) ),* ) => {
+        match ($h, $w) {
+            $( ($m, $n) => from_arr::<$m, $n>($v), )*
+            _ => panic!("fa shape"),
+        }
+    };
+}
+fn from_array(h: usize, w: usize, v: &[i64]) -> Arr2D<i64> {
+    arr_dispatch!(h, w, v, (0, 0), (0, 1), (0, 2), (0, 3), (0, 4), (1, 0), (1, 1), (1, 2), (1, 3), (1, 4), (2, 0), (2, 1), (2, 2), (2, 3), (2, 4), (3, 0), (3, 1), (3, 2), (3, 3), (3, 4), (4, 0), (4, 1), (4, 2), (4, 3), (4, 4))
+}
+
 enum Out {
     Ok,
     Err(&'static str),
@@ -124,6 +146,7 @@ enum Out {
 
 enum Op {
     FromNested(Vec<Vec<i64>>),
+    FromArray(usize, usize, Vec<i64>),
     FromFlat(Vec<i64>, i64, usize, usize),
     Full(i64, usize, usize),
     Identity(usize),
@@ -146,6 +169,12 @@ fn read_op(t: &mut Toks) -> Op {
         "fn" => {
             let k = t.usize();
             Op::FromNested((0..k).map(|_| t.ivec()).collect())
+        }
+        "fa" => {
+            let h = t.usize();
+            let w = t.usize();
+            let v: Vec<i64> = (0..h * w).map(|_| t.i64()).collect();
+            Op::FromArray(h, w, v)
         }
         "ff" => {
             let data = t.ivec();
@@ -212,6 +241,10 @@ fn apply(a: &mut Arr2D<i64>, op: &Op) -> Out {
             }
             Err(e) => Out::Err(err_name(&e)),
         },
+        Op::FromArray(h, w, v) => {
+            *a = from_array(*h, *w, v);
+            Out::Ok
+        }
         Op::FromFlat(data, d, h, w) => match Arr2D::from_flat(data.clone(), *d, *h, *w) {
             Ok(n) => {
                 *a = n;
@@ -257,9 +290,18 @@ fn apply(a: &mut Arr2D<i64>, op: &Op) -> Out {
             Out::Ok
         }
         Op::RowsMutMap(p, q) => {
-            for (i, row) in a.rows_mut().enumerate() {
-                for (j, x) in row.iter_mut().enumerate() {
-                    *x = (*x * p + q + 3 * (i as i64) + (j as i64)) % 100;
+            // both ways to the mutable row iterator: rows_mut() and IntoIterator for &mut Arr2D
+            if q % 2 == 0 {
+                for (i, row) in a.rows_mut().enumerate() {
+                    for (j, x) in row.iter_mut().enumerate() {
+                        *x = (*x * p + q + 3 * (i as i64) + (j as i64)) % 100;
+                    }
+                }
+            } else {
+                for (i, row) in (&mut *a).into_iter().enumerate() {
+                    for (j, x) in row.iter_mut().enumerate() {
+                        *x = (*x * p + q + 3 * (i as i64) + (j as i64)) % 100;
+                    }
                 }
             }
             Out::Ok
